@@ -77,7 +77,7 @@ CHECKS = {
                    "thorough": "(2) with <= 4 tokens"},
         "outside": "tokenizer instances (their reuse is covered by the tokenizer harness VxC08_Tok*); histories that break I through data races or through callers writing unexported fields",
         "assumptions": ["sync.Pool is modelled as a LIFO stack (a single-P process without GC)"],
-        "runs": parruns(["VxC08_Invariant2", "VxC08_Indep_Start3", "VxC08_Indep_Select2", "VxC08_Pool"], ["VxC08_Invariant", "VxC08_Indep_Start4", "VxC08_Indep_Select3", "VxC08_Pool"], ["C08.inv_depth", "C08.same_tree", "C08.same_location"]),
+        "runs": parruns(["VxC08_Invariant2", "VxC08_DepthRestored", "VxC08_Indep_Start3", "VxC08_Indep_Select2", "VxC08_Pool"], ["VxC08_Invariant", "VxC08_DepthRestored", "VxC08_Indep_Start4", "VxC08_Indep_Select3", "VxC08_Pool"], ["C08.inv_depth", "C08.same_tree", "C08.same_location"]),
     },
     "C11": {
         "bounds": {"quick": "Parser.ParseContext under a context that turns done at its k-th poll (k symbolic 0..63, both Canceled and DeadlineExceeded, arbitrary start depth 0..49): a 70-token nested statement (CTE, IN list, CASE, nested function calls, JOIN ON, BETWEEN, UNION, EXISTS sub-query), an INSERT ... RETURNING with function calls, and every <= 2-token continuation of SELECT / SELECT a FROM t WHERE over the 45-row expression table",
